@@ -537,6 +537,19 @@ class Unroller(ast.NodeTransformer):
                                 t = ("rows", [_Subst({hp: target}).visit(copy.deepcopy(r)) for r in t[1]])
                         return t
             return None
+        if isinstance(e, ast.Call) and isinstance(e.func, ast.Name) and e.func.id == "map" and len(e.args) == 2 and not e.keywords:
+            # map(f, TABLE): the rows with f applied (f a name, a lambda, or partial(g, fixed..))
+            t = self.table(e.args[1], depth + 1)
+            f = e.args[0]
+            if t and t[0] == "rows":
+                if isinstance(f, ast.Call) and ast.unparse(f.func) in ("partial", "functools.partial") and f.args and not f.keywords and all(_simple(a) for a in f.args):
+                    mk = lambda row: ast.Call(func=copy.deepcopy(f.args[0]), args=[copy.deepcopy(a) for a in f.args[1:]] + [row], keywords=[])
+                elif isinstance(f, ast.Lambda) or (_simple(f) and not isinstance(f, ast.Constant)):
+                    mk = lambda row: _Beta().visit(ast.Call(func=copy.deepcopy(f), args=[row], keywords=[]))
+                else:
+                    return None
+                return ("rows", [_FoldAttr().visit(mk(copy.deepcopy(r))) for r in t[1]])
+            return None
         if isinstance(e, ast.Call) and isinstance(e.func, ast.Name) and e.func.id == "enumerate" and len(e.args) == 1 and not e.keywords:
             t = self.table(e.args[0], depth + 1)
             if t and t[0] == "rows":
@@ -945,6 +958,22 @@ class Unroller(ast.NodeTransformer):
 
     def visit_Call(self, node):
         self.generic_visit(node)
+        if len(node.args) == 1 and not node.keywords and isinstance(node.args[0], ast.GeneratorExp):
+            # a generator over a constant table handed to the one who consumes it: its items, in order.  all / any stop
+            # at the first item that decides: `e1 and e2 ..` / `e1 or e2 ..`
+            g = node.args[0]
+            fname = ast.unparse(node.func)
+            eager = fname in ("list", "tuple", "set", "frozenset", "sum", "max", "min", "sorted", "itertools.chain.from_iterable", "chain.from_iterable") or (isinstance(node.func, ast.Attribute) and node.func.attr in ("extend", "update", "join"))
+            if eager or fname in ("all", "any"):
+                items = self._comp_items(g, lambda m: _FoldAttr().visit(_Subst(m).visit(copy.deepcopy(g.elt))))
+                if items is not None and items and not any(c for _e, c in items) and len(items) <= MAX_ROWS:
+                    self.count += 1
+                    if eager:
+                        node.args[0] = ast.copy_location(ast.Tuple(elts=[e for e, _c in items], ctx=ast.Load()), g)
+                        return node
+                    op = ast.And() if fname == "all" else ast.Or()
+                    test = items[0][0] if len(items) == 1 else ast.BoolOp(op=op, values=[e for e, _c in items])
+                    return ast.copy_location(ast.Call(func=ast.Name(id="bool", ctx=ast.Load()), args=[test], keywords=[]), node)
         if ast.unparse(node.func) in ("functools.reduce", "reduce") and len(node.args) == 3 and not node.keywords and isinstance(node.args[0], ast.Lambda) and len(node.args[0].args.args) == 2 and _simple(node.args[0]) and _simple(node.args[2]):
             # reduce(lambda acc, row: E, TABLE, init): E applied row after row
             t = self.table(node.args[1])
